@@ -4,4 +4,5 @@ CONSTANTS
   Emit = @@EMIT@@
   NMethods = @@NMETHODS@@
   MaxSites = @@MAXSITES@@
+  Ctxs = @@CTXS@@
 INVARIANTS Grounded Monotone EmitInv
